@@ -11,6 +11,8 @@ import (
 	"strings"
 	"time"
 
+	abci "github.com/cometbft/cometbft/abci/types"
+	"github.com/cometbft/cometbft/crypto/ed25519"
 	slashingtypes "github.com/KiraCore/sekai/x/slashing/types"
 	staking "github.com/KiraCore/sekai/x/staking"
 	stakingtypes "github.com/KiraCore/sekai/x/staking/types"
@@ -31,6 +33,17 @@ type stakeEp struct {
 	label string
 	// generator bookkeeping (mirrors the hypotheses of C05.Good)
 	promoted map[int]bool
+	endErr   string // CometBFT's reason when it rejected the updates of the last block
+	// double-sign evidence delivered with the NEXT block (RequestBeginBlock.ByzantineValidators); consumed by block()
+	ev []evOp
+}
+
+// evOp: one piece of equivocation evidence. age 0 = fresh, 1 = older than the max age DURATION only (still valid: both
+// limits must be exceeded), 2 = older than both limits (stale: ignored). unknown = a consensus key no validator owns.
+type evOp struct {
+	v       int
+	age     int
+	unknown bool
 }
 
 func stLetter(s stakingtypes.ValidatorStatus) string {
@@ -168,7 +181,29 @@ func (e *stakeEp) block(absent map[int]bool, mid []stakeOp, txs []stakeOp, dt ti
 	var midOut []midRes
 	votesSnapshot := append([]*stakeVote{}, e.votes(absent)...)
 	var afterBegin []string
-	br := w.Block(txBytes, BlockOpts{Absent: absentIdx, Dt: dt, Mid: func(ctx sdk.Context) {
+	evs := e.ev
+	e.ev = nil
+	var misb []abci.Misbehavior
+	evValid := map[int]bool{}
+	for _, ev := range evs {
+		addr := []byte(ed25519.GenPrivKeyFromSecret([]byte(fmt.Sprintf("nobody-%d", ev.v))).PubKey().Address())
+		if !ev.unknown {
+			addr = w.valPriv[ev.v].PubKey().Address()
+		}
+		m := abci.Misbehavior{Type: abci.MisbehaviorType_DUPLICATE_VOTE, Validator: abci.Validator{Address: addr, Power: 1},
+			Height: w.height, Time: w.now, TotalVotingPower: int64(len(w.valSet.Validators))}
+		if ev.age >= 1 {
+			m.Time = w.now.Add(-10000 * time.Hour)
+		}
+		if ev.age >= 2 {
+			m.Height = w.height - 10_000_000
+		}
+		misb = append(misb, m)
+		if !ev.unknown && ev.age < 2 {
+			evValid[ev.v] = true
+		}
+	}
+	br := w.Block(txBytes, BlockOpts{Absent: absentIdx, Dt: dt, Evidence: misb, Mid: func(ctx sdk.Context) {
 		afterBegin = e.statuses(ctx)
 		for _, m := range mid {
 			var err error
@@ -196,6 +231,12 @@ func (e *stakeEp) block(absent map[int]bool, mid []stakeOp, txs []stakeOp, dt ti
 	for _, v := range votesSnapshot {
 		r.Op(fmt.Sprintf("stake sig %d %d %d", v.idx, b2i(v.signed), nowNext), "ok")
 	}
+	// the evidence BeginBlocker runs after the slashing one (app.go SetOrderBeginBlockers)
+	for _, ev := range evs {
+		r.Op(fmt.Sprintf("stake evidence %d %d %d %d", ev.v, nowNext, b2i(!ev.unknown), b2i(ev.age >= 2)), "ok")
+		r.Count(fmt.Sprintf("evidence:age%d:unknown%v:on-%s", ev.age, ev.unknown, before[ev.v]))
+		r.Case(fmt.Sprintf("%s/%d/evidence/%d/%d/%v", e.label, w.height, ev.v, ev.age, ev.unknown), !ev.unknown && ev.age < 2)
+	}
 	prev := before
 	checkEdges := func(kind string, target int, after []string) {
 		for i := range after {
@@ -213,8 +254,8 @@ func (e *stakeEp) block(absent map[int]bool, mid []stakeOp, txs []stakeOp, dt ti
 					ok = ok && i == target && after[i] == "J"
 				case "unjail":
 					ok = ok && i == target && prev[i] == "J" && after[i] == "I"
-				case "sig":
-					ok = ok && prev[i] == "A" && after[i] == "I"
+				case "sig": // BeginBlock: downtime inactivation of an active validator, or valid evidence jailing its offender
+					ok = ok && ((prev[i] == "A" && after[i] == "I") || (evValid[i] && after[i] == "J"))
 				case "kpause":
 					if i == target && prev[i] == "J" && after[i] == "P" {
 						r.Known("C15/upgrade-pause/jailed-becomes-paused", "keeper-level Pause (upgrade plan) turned a jailed validator into a paused one")
@@ -317,6 +358,17 @@ func (e *stakeEp) block(absent map[int]bool, mid []stakeOp, txs []stakeOp, dt ti
 	// C15: edges over the whole block, attributed per op where the op stream allows (mid ops carry snapshots)
 	prev = before
 	if afterBegin != nil {
+		// C15: valid double-sign evidence always jails the offender, whatever its status when the evidence arrives
+		for _, ev := range evs {
+			if evValid[ev.v] && afterBegin[ev.v] != "J" {
+				r.Fail("C15/evidence/offender-not-jailed", fmt.Sprintf("%s: block %d carried valid double-sign evidence against validator %d (status %s before the block); after BeginBlock its status is %s", e.label, w.height, ev.v, before[ev.v], afterBegin[ev.v]), nil)
+			}
+		}
+		for i := range afterBegin {
+			if !evValid[i] && before[i] != "J" && afterBegin[i] == "J" {
+				r.Fail("C15/evidence/jailed-without-valid-evidence", fmt.Sprintf("%s: validator %d jailed in BeginBlock of block %d without valid evidence against it", e.label, i, w.height), nil)
+			}
+		}
 		checkEdges("sig", -1, afterBegin)
 	}
 	for _, m := range midOut {
@@ -336,6 +388,7 @@ func (e *stakeEp) block(absent map[int]bool, mid []stakeOp, txs []stakeOp, dt ti
 	}
 	if err != nil {
 		e.halt = true
+		e.endErr = res + ": " + err.Error()
 		r.Count("end:" + res)
 		return false
 	}
@@ -453,6 +506,47 @@ func runStake(r *Rec, prop string) {
 		}
 	}
 
+	// ---------- evidence against an offender that is no longer active when the evidence arrives (C15: it is jailed all
+	// the same). Jailing a validator the consensus set does not hold is the recorded C05 finding, so each runs as its own episode.
+	for _, sc := range []string{"paused", "inactive", "same-block-downtime", "jailed"} {
+		e := newStakeEp(r, prop, 3, "evidence-on-"+sc)
+		switch sc {
+		case "paused":
+			e.block(nil, nil, []stakeOp{{"pause", 0}}, 6*time.Second)
+		case "inactive":
+			for i := 0; i < 5; i++ {
+				e.block(map[int]bool{0: true}, nil, nil, 6*time.Second)
+			}
+		case "same-block-downtime":
+			// validator 0 misses blocks until one more miss inactivates it; the evidence rides in that very block
+			for i := 0; i < 12 && e.statuses(e.w.ReadCtx())[0] == "A"; i++ {
+				si, _ := e.w.app.CustomSlashingKeeper.GetValidatorSigningInfo(e.w.ReadCtx(), e.val(e.w.ReadCtx(), 0).GetConsAddr())
+				if si.Mischance >= 2 {
+					break
+				}
+				e.block(map[int]bool{0: true}, nil, nil, 6*time.Second)
+			}
+		case "jailed":
+			e.block(nil, []stakeOp{{"jail", 0}}, nil, 6*time.Second)
+		}
+		stBefore := e.statuses(e.w.ReadCtx())[0]
+		e.ev = []evOp{{v: 0}}
+		absent := map[int]bool{}
+		if sc == "same-block-downtime" {
+			absent[0] = true
+		}
+		okEnd := e.block(absent, nil, nil, 6*time.Second)
+		r.Count("evidence-scenario:" + sc + ":from-" + stBefore)
+		if !okEnd && (stBefore == "P" || stBefore == "I") {
+			r.Known("C05/jail-non-consensus-validator/removal-of-absent-key", "evidence jails a "+sc+" validator: the removal of a key the consensus set does not hold is queued")
+		}
+		// the owner cannot simply come back: unpause / activate of the jailed offender must fail
+		if okEnd {
+			e.block(nil, nil, []stakeOp{{"unpause", 0}}, 6*time.Second)
+			e.block(nil, nil, []stakeOp{{"activate", 0}}, 60*time.Second)
+		}
+	}
+
 	// ---------- random episodes restricted to the operations covered by C05.sync_block (hypothesis `Good`)
 	nEp, nBlocks := 6, 25
 	if r.Tier == "thorough" {
@@ -514,7 +608,15 @@ func runStake(r *Rec, prop string) {
 					if !inV[v] || active-willLeave <= 1 {
 						continue
 					}
-					switch r.Rng.Intn(4) {
+					switch r.Rng.Intn(5) {
+					case 4:
+						// double-sign evidence against an active member of the consensus set: fresh, old by time only (still
+						// valid), or older than both limits (ignored: the validator stays)
+						age := []int{0, 0, 1, 2}[r.Rng.Intn(4)]
+						e.ev = append(e.ev, evOp{v: v, age: age})
+						if age == 2 {
+							willLeave--
+						}
 					case 3:
 						// one transaction [MsgPause, MsgUnpause]: leaves and re-enters within the block (allowed by C05.Good)
 						txs = append(txs, stakeOp{"pause", v}, stakeOp{"unpause", v})
@@ -552,8 +654,16 @@ func runStake(r *Rec, prop string) {
 					touched[v] = true
 				}
 			}
+			if r.Rng.Intn(10) == 0 { // evidence naming a consensus key nobody owns: ignored
+				e.ev = append(e.ev, evOp{v: r.Rng.Intn(n), unknown: true})
+			}
 			dt := time.Duration(3+r.Rng.Intn(10)) * time.Second
-			e.block(absent, mid, txs, dt)
+			if !e.block(absent, mid, txs, dt) && e.endErr != "" && !strings.HasPrefix(e.endErr, "err:empty") {
+				// the random episodes stay inside the hypotheses of C05.sync_block: an inapplicable update list (duplicate key,
+				// removal of an absent key) is a violation. An EMPTY resulting set is not judged here: jailing every active
+				// validator has no guard in the code and no clause in the property; the model reproduces it (err:empty).
+				r.Fail("C05/updates-rejected-by-consensus-engine", fmt.Sprintf("%s: block %d: CometBFT rejected the validator updates (%s); mid ops %v, txs %v", e.label, e.w.height, e.endErr, mid, txs), nil)
+			}
 		}
 	}
 	r.Extra["rule"] = "real blocks on 3-4 validators: commit-vote absences (downtime windows), owner messages pause/unpause/activate as signed transactions (also in the wrong state), keeper-level jail / unjail-proposal / keeper Pause between BeginBlock and the transactions; every returned update list is applied to a real CometBFT ValidatorSet. Random episodes stay inside the hypotheses of C05.sync_block; the excluded shapes run as separate witness episodes. Non-trivial: accepted owner messages; distinct by (episode, height, op, outcome)."
